@@ -19,10 +19,29 @@ import (
 // NAccts is the size of the account universe.
 const NAccts = 7
 
-// AcctBytes returns the 20 address bytes of account i.
+// AcctBytes returns the address bytes of account i (20 bytes, unless OddAccounts is on).
 func AcctBytes(i int) []byte {
-	return attest.Keccak([]byte{'v', 'e', 'r', 'i', 'f', '-', 'a', 'c', 'c', 't', byte(i)})[:20]
+	base := attest.Keccak([]byte{'v', 'e', 'r', 'i', 'f', '-', 'a', 'c', 'c', 't', byte(i)})
+	if OddAccounts && i < 4 {
+		// a family of accounts that agree in their first 20 bytes: X, X||Y1, X||Y2 (32 bytes) and X||00 (21 bytes)
+		x := attest.Keccak([]byte("verif-acct-family"))[:20]
+		switch i {
+		case 0:
+			return x
+		case 1:
+			return append(append([]byte{}, x...), base[:12]...)
+		case 2:
+			return append(append([]byte{}, x...), attest.Keccak(base)[:12]...)
+		default:
+			return append(append([]byte{}, x...), 0)
+		}
+	}
+	return base[:20]
 }
+
+// OddAccounts switches accounts 0..3 to a family of addresses of different lengths that share their first 20 bytes
+// (process-wide; set by the checks that enumerate over it before anything else runs).
+var OddAccounts bool
 
 // Acct returns the canonical bech32 string of account i.
 func Acct(i int) string {
